@@ -15,6 +15,7 @@ R1.7  writer typestate: indent()/dedent() are balanced on every path of every em
       the signature generator leaves +1 that the method generator closes)
 R1.8  de-collision precedes emission and the set of schemas that get files is the set that is exported/imported: a
       file filter after naming must be unsatisfiable or be applied to the registry the exports are rendered from
+R1.14 the arms written for secondary responses emit `return <value>` only when the operation is not streaming (no value-return in an async generator)
 R1.13 the parameter list a signature is rendered from is sorted required-first as the last step (no element is added after the sort)
 R1.12 spec text placed after a `#` has every line boundary removed (otherwise the rest of the description is parsed as code)  [= R15.1, COMMENT holes]
 R1.11 RenderContext's completion of "incomplete" internal module paths never applies to a module of the core package
@@ -71,6 +72,7 @@ def run(repo: Repo, rep: Report, tier: str) -> None:
 
     rule_completion_spares_core(repo, rep, "R1.11")
     rule_required_first(repo, rep, "R1.13")
+    rule_no_value_return_in_stream(repo, rep, "R1.14")
     # R1.12: nothing that ends a source line survives into a `# comment` built from spec text (instances of R15.1 in COMMENT position)
     from rules._reuse import reuse as _reuse112
 
@@ -716,3 +718,61 @@ def rule_required_first(repo: Repo, rep, rule: str = "R1.13") -> None:
                           "follow an optional one (SyntaxError in the generated signature)", pp.loc(late[0].ast))
         else:
             rep.ok(rule, sub, f"`{norm(s.ast)[:60]}` dominates the return and nothing changes the list afterwards", pp.loc(s.ast))
+
+
+# ------------------------------------------------------------------------------------------------ R1.14 no value-return inside an async generator
+def rule_no_value_return_in_stream(repo: Repo, rep, rule: str = "R1.14") -> None:
+    """A streaming operation is rendered as an async generator, in which `return <value>` is a SyntaxError.  The arms that
+    generate_response_handling writes for the *other* declared responses (the loop over op.responses) therefore emit a value-return
+    only under a path condition that excludes streaming (`strategy.is_streaming` false)."""
+    from sa.cfg import CFG, guards
+    from sa.flatten import flatten
+    from sa.match import Locals as _L
+    from sa.templates import template_of
+
+    grh0 = repo.func("visit.endpoint.generators.response_handler_generator:EndpointResponseHandlerGenerator.generate_response_handling")
+    grh = flatten(grh0)
+    L = _L(grh.node)
+    cfg = CFG(grh.node)
+    dom = cfg.dominators()
+    loops = [n for n in own_nodes(grh.node) if isinstance(n, ast.For) and "responses" in norm(L.inline(n.iter, stop=tuple(L.params)))]
+    rep.require(len(loops) >= 1, f"{rule}: the loop over the other declared responses was not found in generate_response_handling (anchor)")
+    inside = {id(x) for lp in loops for st in lp.body for x in ast.walk(st)}
+    n = 0
+    for nd in cfg.nodes:
+        if nd.kind != "stmt" or nd.ast is None or nd.copy or id(nd.ast) not in inside:
+            continue
+        for c in calls_in(nd.ast):
+            if not (isinstance(c.func, ast.Attribute) and c.func.attr == "write_line" and c.args):
+                continue
+            t = template_of(L.inline(c.args[0], stop=tuple(L.params)), grh.node)
+            if t is None:
+                continue
+            txt = t.text.strip()
+            if not txt.startswith("return"):
+                continue
+            rest = txt[len("return"):].split("#")[0].strip()
+            if not rest:
+                continue  # bare `return` is fine in a generator
+            n += 1
+            not_streaming = False
+            for g, pol in guards(cfg, nd.id, dom):
+                if g.kind != "test" or pol is None:
+                    continue
+                conj = g.ast.values if pol and isinstance(g.ast, ast.BoolOp) and isinstance(g.ast.op, ast.And) else [g.ast]
+                for cj in conj:
+                    pj = pol
+                    while isinstance(cj, ast.UnaryOp) and isinstance(cj.op, ast.Not):
+                        cj, pj = cj.operand, not pj
+                    if pj is False and "is_streaming" in norm(L.inline(cj, stop=tuple(L.params))):
+                        not_streaming = True
+            sub = f"{grh0.module.relpath}:generate_response_handling secondary arm `{txt[:40].replace(chr(0), '{}')}`"
+            if not_streaming:
+                rep.ok(rule, sub, "emitted only when the operation is not streaming", grh0.loc(c))
+            else:
+                rep.violation(rule, sub, f"{grh0.fq}|value-return-in-stream|{txt[:25].replace(chr(0), '{}')}",
+                              "this value-return is also written into the body of a streaming operation (an async generator): a streaming operation that declares a further "
+                              "success response (204, or 201 with a body) gets `return None` / `return <value>` - 'return' with value in async generator is a SyntaxError "
+                              "and the endpoints module cannot be imported", grh0.loc(c))
+    rep.count(f"{rule}:value_returns_in_secondary_arms", n)
+    rep.require(n >= 2, f"{rule}: only {n} value-return templates found in the secondary arms (floor 2)")
